@@ -487,6 +487,12 @@ def load_program(config="all", force=False):
     if key not in _PROGRAMS or force:
         d = extract_facts(repo, config, force=force)
         _PROGRAMS[key] = Program(d, config)
+        # discriminant values of the workspace's own enums, for deciding switches on known aggregates
+        from . import flow as _flow
+        for path, a in _PROGRAMS[key].adts.items():
+            tab = {v["name"]: str(v["discr"]) for v in a.get("variants", []) if v.get("discr") is not None}
+            if len(tab) > 1:
+                _flow.WORKSPACE_DISCR[path] = tab
     return _PROGRAMS[key]
 
 
